@@ -1086,6 +1086,179 @@ fn run_long_case(tys: &[Ty], len: usize, pats: &[(Pat, NullPat)], lay: Lay, os: 
     evals
 }
 
+
+// ---- top-k: lexsort_to_indices with a limit on both sides of the `limit <= rows / 10` switch
+// (bounded max-heap path vs partial-sort path), driven by rank sequences
+
+/// columns (types, options, values) that encode a rank sequence so that the tuple order under the
+/// options is exactly the rank order (encodings 0-2) - mixed options, nulls and 2-3 columns
+fn rank_cols(enc: usize, ranks: &[u32]) -> (Vec<Ty>, Vec<Opts>, Vec<Vec<Val>>) {
+    use arrow_schema::DataType::*;
+    let asc_nf = Opts { descending: false, nulls_first: true };
+    let asc_nl = Opts { descending: false, nulls_first: false };
+    let desc_nl = Opts { descending: true, nulls_first: false };
+    let desc_nf = Opts { descending: true, nulls_first: true };
+    match enc {
+        0 => (
+            vec![p(Int32), p(Int32)],
+            vec![asc_nf, asc_nf],
+            vec![ranks.iter().map(|r| Val::I(*r as i128)).collect(), ranks.iter().map(|_| Val::I(0)).collect()],
+        ),
+        1 => (
+            vec![p(Int32), by(Utf8)],
+            vec![desc_nl, asc_nf],
+            vec![ranks.iter().map(|r| Val::I(-((*r / 2) as i128))).collect(), ranks.iter().map(|r| if r % 2 == 0 { Val::Null } else { Val::B(b"a".to_vec()) }).collect()],
+        ),
+        _ => (
+            vec![p(Int32), p(Float64), p(Int8)],
+            vec![asc_nl, desc_nf, asc_nl],
+            vec![
+                ranks.iter().map(|r| Val::I((*r / 16) as i128)).collect(),
+                ranks.iter().map(|r| Val::F64((-(((*r / 4) % 4) as f64)).to_bits())).collect(),
+                ranks.iter().map(|r| if r % 4 == 3 { Val::Null } else { Val::I((*r % 4) as i128) }).collect(),
+            ],
+        ),
+    }
+}
+
+fn run_topk_case(enc: usize, ranks: &[u32], limits: &[usize], st: &mut Stats, order: u64, verbose: bool) -> u64 {
+    let n = ranks.len();
+    let (tys, os, cols_v) = rank_cols(enc, ranks);
+    let nc = tys.len();
+    let case = || json!({"sub": "topk", "enc": enc, "ranks": ranks, "limits": limits});
+    let mut rp = Rp { st, order, prop: "c10", kind: "tuple", case: &case, verbose };
+    let lab = format!("topk enc={enc} rows={n} ranks={ranks:?}");
+    let arrs: Vec<ArrayRef> = match catch(|| (0..nc).map(|c| realise(&tys[c], &cols_v[c], COMPACT)).collect()) {
+        Ok(a) => a,
+        Err(pi) => {
+            rp.fail("harness", "realise-panic", format!("{lab}: {} at {}:{}", pi.msg, pi.file, pi.line));
+            return 0;
+        }
+    };
+    let cmp = |i: usize, j: usize| {
+        for c in 0..nc {
+            match cmp_opts(&cols_v[c][i], &cols_v[c][j], os[c]) {
+                Ordering::Equal => {}
+                r => return r,
+            }
+        }
+        Ordering::Equal
+    };
+    let exp = model_sorted(n, &cmp);
+    // harness self-check: the encoding is order-isomorphic to the ranks
+    if (0..n.saturating_sub(1)).any(|q| ranks[exp[q]] > ranks[exp[q + 1]]) {
+        rp.fail("harness", "rank-encoding", format!("{lab}: tuple order differs from the rank order"));
+        return 0;
+    }
+    let scols: Vec<SortColumn> = (0..nc).map(|c| SortColumn { values: arrs[c].clone(), options: Some(os[c].arrow()) }).collect();
+    let mut evals = 0;
+    for &l in limits {
+        evals += 1;
+        let lab = format!("{lab} limit={l}");
+        match catch(|| lexsort_to_indices(&scols, Some(l))) {
+            Err(pi) => rp.panic("lexsort_to_indices", &pi, lab.clone()),
+            Ok(Err(e)) => rp.fail("lexsort_to_indices", "unsupported", format!("{lab}: {e}")),
+            Ok(Ok(idx)) => {
+                rp.st.outcome(if l <= n / 10 { "topk:heap-path" } else { "topk:partial-sort-path" });
+                if let Err(e) = check_perm(&idx, n, want_len(n, Some(l)), &exp, &cmp) {
+                    rp.fail("lexsort_to_indices", "order", format!("{lab}: {e}"));
+                }
+            }
+        }
+    }
+    evals
+}
+
+/// idx-th permutation of 0..k (factorial number system)
+fn nth_permutation(k: usize, mut idx: u64) -> Vec<usize> {
+    let mut pool: Vec<usize> = (0..k).collect();
+    let mut out = Vec::with_capacity(k);
+    for i in (1..=k).rev() {
+        let f: u64 = (1..i as u64).product();
+        let q = (idx / f) as usize;
+        idx %= f;
+        out.push(pool.remove(q));
+    }
+    out
+}
+
+/// probe families appended after the first `l` rows (ranks of the first rows are 16+10, 16+20, ...):
+/// c smallest values for every c in 0..=l+1 (equal / descending / ascending), values falling between the
+/// keys in both directions, and a mixed one. Everything after the probes is larger than every key.
+fn probe_families(l: usize) -> Vec<Vec<u32>> {
+    let mut f: Vec<Vec<u32>> = vec![vec![]];
+    for c in 1..=l + 1 {
+        f.push(vec![5; c]);
+        f.push((0..c).map(|i| (c - i) as u32).collect());
+        f.push((0..c).map(|i| (i + 1) as u32).collect());
+    }
+    f.push((0..l).map(|i| (16 + 10 * (l - i) - 5) as u32).collect());
+    f.push((0..l).map(|i| (16 + 10 * (i + 1) - 5) as u32).collect());
+    f.push(vec![9, 8, 7, 16 + 15]);
+    f
+}
+
+fn topk_perm_ranks(l: usize, perm: &[usize], probes: &[u32], n: usize) -> Vec<u32> {
+    let mut r: Vec<u32> = perm.iter().map(|q| (16 + 10 * (q + 1)) as u32).collect();
+    r.extend_from_slice(probes);
+    let mut i = 0;
+    while r.len() < n {
+        r.push(1000 + i);
+        i += 1;
+    }
+    debug_assert!(r.len() == n && probes.len() + l <= n);
+    r
+}
+
+/// deterministic non-monotone rank families of length n
+fn long_rank_families(n: usize) -> Vec<(String, Vec<u32>)> {
+    let a = vcore::lfsr_bytes(2 * n + 2, vcore::LFSR_A);
+    let b = vcore::lfsr_bytes(2 * n + 2, vcore::LFSR_B);
+    let mut out: Vec<(String, Vec<u32>)> = vec![
+        ("lfsrA16".into(), (0..n).map(|i| a[2 * i] as u32 * 256 + a[2 * i + 1] as u32).collect()),
+        ("lfsrB16".into(), (0..n).map(|i| b[2 * i] as u32 * 256 + b[2 * i + 1] as u32).collect()),
+        ("lfsrA8".into(), (0..n).map(|i| a[i] as u32).collect()),
+        ("lfsrB4".into(), (0..n).map(|i| (b[i] % 16) as u32).collect()),
+        ("zigzag".into(), (0..n).map(|i| if i % 2 == 0 { (i / 2) as u32 } else { (n - i / 2) as u32 }).collect()),
+        ("zagzig".into(), (0..n).map(|i| if i % 2 == 1 { (i / 2) as u32 } else { (n - i / 2) as u32 }).collect()),
+        ("descending".into(), (0..n).map(|i| (n - i) as u32).collect()),
+        ("ascending".into(), (0..n).map(|i| i as u32).collect()),
+    ];
+    for blk in [3usize, 5, 8, 13] {
+        // descending runs, blocks ascending / blocks descending
+        out.push((format!("desc-runs-{blk}-up"), (0..n).map(|i| ((i / blk) * blk + (blk - 1 - i % blk)) as u32).collect()));
+        out.push((format!("desc-runs-{blk}-down"), (0..n).map(|i| ((n / blk - i / blk) * blk + (blk - 1 - i % blk)) as u32).collect()));
+        out.push((format!("asc-runs-{blk}-down"), (0..n).map(|i| ((n / blk - i / blk) * blk + i % blk) as u32).collect()));
+    }
+    for s in [3usize, 7, 11, 37] {
+        out.push((format!("stride-{s}"), (0..n).map(|i| ((i * s) % n) as u32).collect()));
+    }
+    // first k small (non-monotone), then large values with small outliers at moving positions
+    for k in [7usize, 8] {
+        for pos in [k, k + 1, n / 2, n - 5] {
+            let mut r: Vec<u32> = (0..n).map(|i| 1000 + i as u32).collect();
+            for (i, v) in [50u32, 40, 10, 30, 5, 4, 20, 45].iter().take(k).enumerate() {
+                r[i] = 100 + *v;
+            }
+            for (j, v) in [9u32, 8, 7, 115].iter().enumerate() {
+                if pos + j < n {
+                    r[pos + j] = *v;
+                }
+            }
+            out.push((format!("first-{k}-then-outliers-at-{pos}"), r));
+        }
+    }
+    out
+}
+
+fn topk_long_limits(n: usize) -> Vec<usize> {
+    let mut l = vec![1, 2, 3, 4, 5, 6, 7, 8, (n / 10).saturating_sub(1), n / 10, n / 10 + 1];
+    l.retain(|x| *x >= 1 && *x <= n);
+    l.sort();
+    l.dedup();
+    l
+}
+
 // -------------------------------------------------------------------------------------------------
 
 fn parse_col(v: &Value) -> Vec<u8> {
@@ -1132,6 +1305,11 @@ fn replay(case: &Value) -> u64 {
                 .collect();
             let os: Vec<Opts> = case["opts"].as_array().unwrap().iter().map(|o| ALL_OPTS[o.as_u64().unwrap() as usize]).collect();
             run_long_case(&tys, case["len"].as_u64().unwrap() as usize, &pats, lay_from(&case["layout"]), &os, &mut st, 0, true);
+        }
+        "topk" => {
+            let ranks: Vec<u32> = case["ranks"].as_array().unwrap().iter().map(|x| x.as_u64().unwrap() as u32).collect();
+            let limits: Vec<usize> = case["limits"].as_array().unwrap().iter().map(|x| x.as_u64().unwrap() as usize).collect();
+            run_topk_case(case["enc"].as_u64().unwrap() as usize, &ranks, &limits, &mut st, 0, true);
         }
         other => {
             eprintln!("MACHINERY: unknown sub-engine {other:?} in replay");
@@ -1438,6 +1616,66 @@ pub fn run(ctx: &Ctx) -> ! {
             st.sample("long-tuples", || json!({"types": tys.iter().map(|t| t.name()).collect::<Vec<_>>(), "len": len, "layout": lay.show()}));
         }
     }));
+    order_base += n_lt;
+    // ---------------- top-k: exhaustive heap-build shapes. For every heap size L: ALL L! orders of the
+    // first L rows x probe families x rows in {10L-1 (partial-sort path), 10L, 10L+1 (heap path)} x 3
+    // column encodings with mixed options
+    let topk_ls: Vec<usize> = if thorough { vec![2, 3, 4, 5, 6, 7, 8, 9] } else { vec![2, 3, 4, 5, 6, 7, 8] };
+    struct KJob {
+        l: usize,
+        fams: Vec<Vec<u32>>,
+        perms: u64,
+        start: u64,
+    }
+    let mut kjobs: Vec<KJob> = vec![];
+    let mut ktotal = 0u64;
+    for &l in &topk_ls {
+        let fams = probe_families(l);
+        let perms: u64 = (1..=l as u64).product();
+        let c = perms * fams.len() as u64 * 9;
+        kjobs.push(KJob { l, fams, perms, start: ktotal });
+        ktotal += c;
+    }
+    st.merge(par_for(ctx, "topk-perm", if wants("topk-perm") { ktotal } else { 0 }, 64, |idx, st| {
+        let pi = kjobs.partition_point(|j| j.start <= idx) - 1;
+        let job = &kjobs[pi];
+        let mut off = idx - job.start;
+        let enc = (off % 3) as usize;
+        off /= 3;
+        let n = 10 * job.l - 1 + (off % 3) as usize;
+        off /= 3;
+        let fam = &job.fams[(off % job.fams.len() as u64) as usize];
+        off /= job.fams.len() as u64;
+        debug_assert!(off < job.perms);
+        let perm = nth_permutation(job.l, off);
+        let ranks = topk_perm_ranks(job.l, &perm, fam, n);
+        let ev = run_topk_case(enc, &ranks, &[job.l], st, order_base + idx, false);
+        st.add("topk-perm", ev, 1);
+        if idx == ktotal - 1 {
+            st.sample("topk-perm", || json!({"heap_size": job.l, "rows": n, "encoding": enc, "ranks": ranks}));
+        }
+    }));
+    order_base += ktotal;
+    // ---------------- top-k: structured non-monotone families x lengths x limits around rows/10
+    let topk_lens: Vec<usize> = if thorough { vec![69, 70, 71, 79, 80, 81, 100, 129, 257, 513, 1025] } else { vec![69, 70, 71, 100, 129, 257] };
+    let n_fams = long_rank_families(70).len();
+    let n_tl = (topk_lens.len() * n_fams * 3) as u64;
+    st.merge(par_for(ctx, "topk-long", if wants("topk-long") { n_tl } else { 0 }, 1, |idx, st| {
+        let mut i = idx as usize;
+        let enc = i % 3;
+        i /= 3;
+        let fi = i % n_fams;
+        i /= n_fams;
+        let n = topk_lens[i];
+        let (name, ranks) = long_rank_families(n).swap_remove(fi);
+        let limits = topk_long_limits(n);
+        let ev = run_topk_case(enc, &ranks, &limits, st, order_base + idx, false);
+        st.add("topk-long", ev, 1);
+        if idx == n_tl - 1 {
+            st.sample("topk-long", || json!({"family": name, "rows": n, "encoding": enc, "limits": limits}));
+        }
+    }));
+    st.extra.insert("topk_cases".into(), json!({"perm": ktotal, "heap_sizes": topk_ls, "long": n_tl, "long_lengths": topk_lens, "long_families": n_fams}));
     st.extra.insert("long_cases".into(), json!({"single": n_ls, "tuples": n_lt, "lengths": long_lens}));
     st.extra.insert("support_matrix".into(), Value::Object(support));
     st.extra.insert("types".into(), json!(types.len()));
@@ -1446,7 +1684,7 @@ pub fn run(ctx: &Ctx) -> ! {
         ctx,
         Level {
             category: "exploration",
-            rule: "cases are enumerated, never sampled. unary: for every type of the grid, every column (all sequences up to the stated length over the type's alphabet prefix) x 5 layouts x 4 SortOptions x limits; pairs: all ordered pairs of columns of length <= 3 x 4 layout pairs x encodings; tuples: all row sequences over the product alphabet x 4^k option assignments x all limits; long: complete product of the listed lengths x patterns x layouts x options. Every enumerated point is distinct by construction; it is counted non-trivial when the column (or tuple column set) has >= 2 rows and >= 2 distinct values (long families: always).".into(),
+            rule: "cases are enumerated, never sampled. unary: for every type of the grid, every column (all sequences up to the stated length over the type's alphabet prefix) x 5 layouts x 4 SortOptions x limits; pairs: all ordered pairs of columns of length <= 3 x 4 layout pairs x encodings; tuples: all row sequences over the product alphabet x 4^k option assignments x all limits; long: complete product of the listed lengths x patterns x layouts x options; topk-perm: for every heap size L, all L! orders of the first L rows x probe families x rows in {10L-1,10L,10L+1} x 3 column encodings, lexsort_to_indices with limit L; topk-long: lengths x non-monotone rank families x 3 encodings x limits {1..8, rows/10-1, rows/10, rows/10+1}. Every enumerated point is distinct by construction; it is counted non-trivial when the column (or tuple column set) has >= 2 rows and >= 2 distinct values (long families: always).".into(),
             assumptions: vec![
                 "model order: IEEE totalOrder on bit patterns, bytewise unsigned for strings/binary, signed/unsigned integers, decimals by unscaled value, intervals field-wise (months|days, days|millis, nanos) as the derived Ord of the native structs, lists lexicographic then by length, structs field-wise, unions by type id then value, child options {descending:false, nulls_first: nulls_first != descending}".into(),
                 "union slots whose selected child is null are logical nulls (logical_nulls), so nulls of different branches compare Equal".into(),
